@@ -16,9 +16,10 @@ DEPENDENCIES of a producer = the producers it reads
     every entry is compared with the text of its assignment.  A field assigned from a producer (`self.modulus_adiabatic
     = self._full_modulus.modulus_adiabatic`) carries that producer as dependency;
   * fail closed: an attribute whose name is a producer name somewhere, read on an object of unknown class, becomes a
-    "by-name" edge to EVERY producer of that name.  By-name edges are kept if the graph stays acyclic with them (the
-    certificate then covers them); otherwise they are dropped and listed (report["by_name_reads_dropped"]).  What leaves
-    the package (qha's calculator, attributes assigned from outside the class) is a leaf `external:...` in the report.
+    "by-name" edge to EVERY producer of that name; operator.attrgetter("a") / methodcaller("m") are such reads too.
+    By-name edges are kept unless they lie on a cycle; those on a cycle are given up one cycle at a time and listed
+    (report["by_name_reads_dropped"], named in the obligation).  What leaves the package (qha's calculator, attributes
+    assigned from outside the class) is a leaf `external:...` in the report.
 
 PURITY  (class Fn) of every producer body and of everything it calls ("producer phase"); flow-insensitive.
   value kinds   FRESH    exclusively owned, deep: constants, BinOp/UnaryOp/Compare results (numpy arithmetic), numpy
@@ -37,6 +38,14 @@ PURITY  (class Fn) of every producer body and of everything it calls ("producer 
                 passing x to a callee parameter that the callee mutates (summaries: parameter -> depth, computed to a
                 fixpoint over the whole package): same requirement;  mutation of a function's own parameter is recorded
                 in its summary and charged to the callers;  anything reachable from `self`: impure
+  generators    a generator function is analysed like a function: reads, calls and findings of its body are charged to the
+                function that creates the iterator (findings do not depend on when the body runs); the result is an owned
+                iterator whose elements have the kinds of the yielded values; a generator that mutates its PARAMETER
+                is undecided (the argument may have lost its freshness when the body runs)
+  one-shot      generators, generator expressions, zip/map/filter/enumerate/reversed/iter, itertools.*: consuming them
+                is harmless while they are local, but a LazyProperty / lru_cache that RETURNS one is impure
+  functions as  a package function or method that mutates its parameter and is used as a value (map(f, ..), partial(f),
+  values        key=f) is undecided: its later calls are not tracked
   impure        assignment to `self.<attr>` outside __init__ (constructors called from a producer may initialise THEIR
                 object), attribute assignment on any non-local object, setattr, global / nonlocal
   undecided     external callee not in the tables, nondeterministic callee (random, time, os ...), input/output builtins,
@@ -171,10 +180,11 @@ def ty_join(a, b, depth=0):
 
 
 class Val:
-    __slots__ = ("kind", "ty", "ent", "why")
+    __slots__ = ("kind", "ty", "ent", "why", "oneshot")
 
-    def __init__(self, kind=NONFRESH, ty=None, ent=None, why=""):
+    def __init__(self, kind=NONFRESH, ty=None, ent=None, why="", oneshot=False):
         self.kind, self.ty, self.ent, self.why = kind, ty, ent, why
+        self.oneshot = oneshot        # a one-shot iterator (generator, zip, map, ...): reading it consumes it
 
 
 # ---------------------------------------------------------------------------------------------
@@ -418,6 +428,7 @@ class Summary:
         self.param_mut = {}        # parameter index -> mutation depth (1: the object itself, 2: its elements)
         self.ret_kind = FRESH
         self.ret_ty = BOT
+        self.ret_oneshot = False   # the result is a one-shot iterator
         self.deps = set()          # producer nodes (class, name) read directly
         self.soft = set()          # (reader site, node): by-name edges, reads on objects of unknown class
         self.calls = set()         # (instance key, through a constructor)
@@ -426,7 +437,7 @@ class Summary:
         self.done = False
 
     def sig(self):
-        return (tuple(sorted(self.param_mut.items())), self.ret_kind, self.ret_ty)
+        return (tuple(sorted(self.param_mut.items())), self.ret_kind, self.ret_ty, self.ret_oneshot)
 
 
 class Analysis:
@@ -627,22 +638,27 @@ class Fn:
                     names.add((al.asname or al.name).split(".")[0])
         self.pk = {n: FRESH for n in names}
         self.pt = {n: BOT for n in names}
+        self.p1 = {n: False for n in names}
         self.ents = {}
         self.why = {}
         self.record = False
         stable = False
         for it in range(14):
             self.pass_once(body)
-            if (self.nk, self.nt) == (self.pk, self.pt):
+            if (self.nk, self.nt, self.n1) == (self.pk, self.pt, self.p1):
                 stable = True
                 break
-            self.pk, self.pt = self.nk, self.nt
+            self.pk, self.pt, self.p1 = self.nk, self.nt, self.n1
         self.record = True
         self.pass_once(body)
         if not stable:
             self.issue("undecided", self.node, "kinds of the local names do not stabilise", stmt=self.node)
         if self.memo:
             self.out.ret_kind = NONFRESH
+        if self.out.ret_oneshot and self.parent is None and (self.memo or (
+                self.cls is not None and self.pkg.producer_kind(self.cls, self.node) == "lazy")):
+            self.issue("impure", self.node, "a one-shot iterator (generator, zip, map, itertools ...) is cached: the second "
+                       "reader finds it consumed", stmt=self.node)
         if self.parent is None:
             for k in self.bad_decos:
                 self.issue("undecided", self.node, "decorator %s is not understood" % k, stmt=None)
@@ -659,6 +675,8 @@ class Fn:
     def pass_once(self, body):
         self.nk = {n: FRESH for n in self.pk}
         self.nt = {n: BOT for n in self.pt}
+        self.n1 = {n: False for n in self.pk}
+        self.yields = []
         self.out = Summary()
         self.last_deps, self.rhs_deps = set(), set()
         self.saw_return_value = False
@@ -668,8 +686,24 @@ class Fn:
             self.cur_stmt = self.node.body
             v = self.ev(self.node.body)
             self.out.ret_kind, self.out.ret_ty, self.saw_return_value = v.kind, v.ty, True
+            self.out.ret_oneshot = v.oneshot
         else:
             self.block(body)
+        if self.yields:
+            # a generator function: the call only creates the iterator; its body runs while the iterator is consumed.
+            # Reads, calls and findings of the body are charged to the creator (sound: purity findings do not depend on
+            # WHEN the body runs, and whoever consumes the iterator obtained it from the creator).  A generator that
+            # mutates its parameter is not decided: the argument may have lost its freshness when the body runs.
+            k, t = FRESH, BOT
+            for v in self.yields:
+                k, t = min(k, v.kind), ty_join(t, v.ty)
+            self.out.ret_kind = FRESH if k == FRESH else SHALLOW
+            self.out.ret_ty = Ty([CONT], None if t is BOT else t)
+            self.out.ret_oneshot = True
+            self.saw_return_value = True
+            if self.out.param_mut:
+                self.issue("undecided", self.node, "generator that mutates its parameter %s" % sorted(
+                    self.params[i] for i in self.out.param_mut if i < len(self.params)), stmt=self.node)
         if self.record:
             self.escape_check()
 
@@ -727,7 +761,8 @@ class Fn:
     # -- environment --------------------------------------------------------------------
     def bind(self, name, val, node=None):
         if name not in self.nk:
-            self.nk[name], self.nt[name] = FRESH, BOT
+            self.nk[name], self.nt[name], self.n1[name] = FRESH, BOT, False
+        self.n1[name] = self.n1[name] or val.oneshot
         if val.kind < self.nk[name] and name not in self.why and val.why:
             self.why[name] = val.why
         self.nk[name] = min(self.nk[name], val.kind)
@@ -757,7 +792,8 @@ class Fn:
             return Val(k, t, None, "parameter %s" % name)
         if name in self.pk:
             t = self.pt[name]
-            return Val(self.pk[name], None if t is BOT else t, self.ents.get(name), self.why.get(name, ""))
+            return Val(self.pk[name], None if t is BOT else t, self.ents.get(name), self.why.get(name, ""),
+                       self.p1.get(name, False))
         if self.parent is not None:
             v = self.parent.lookup(name)
             return Val(NONFRESH if v.ent is None else v.kind, v.ty, v.ent, v.why or "variable of the enclosing function")
@@ -773,13 +809,24 @@ class Fn:
             self.issue("undecided", self.cur_stmt, "name %s cannot be resolved" % name)
             return Val(NONFRESH, None)
         if ent[0] == "func":
-            self.call_edge(("func", ent[1], ent[2]))
+            self.call_edge(("func", ent[1], ent[2]), value_use=True)
         return Val(NONFRESH, None, ent, "module-level object")
 
-    def call_edge(self, key, ctor=False):
+    as_callee = False
+
+    def call_edge(self, key, ctor=False, value_use=False):
         self.an.need(key)
         self.out.calls.add((key, ctor))
-        return self.an.summ[key]
+        s = self.an.summ[key]
+        if value_use and not self.as_callee:
+            # a package function used as a VALUE (map(f, ..), partial(f), key=f): its later calls are not tracked, so it
+            # must not mutate its arguments
+            off = 1 if key[0] == "meth" else 0
+            muts = sorted(i for i in s.param_mut if i >= off)
+            if muts:
+                self.issue("undecided", self.cur_stmt, "%s mutates its parameter and is used as a value here (its calls "
+                           "are not tracked)" % key_name(key))
+        return s
 
     # -- statements ---------------------------------------------------------------------
     def block(self, stmts):
@@ -799,6 +846,7 @@ class Fn:
                 self.saw_return_value = True
                 self.out.ret_kind = min(self.out.ret_kind, v.kind)
                 self.out.ret_ty = ty_join(self.out.ret_ty, v.ty)
+                self.out.ret_oneshot = self.out.ret_oneshot or v.oneshot
         elif isinstance(s, ast.Expr):
             if isinstance(s.value, ast.Constant):
                 return
@@ -1050,7 +1098,7 @@ class Fn:
                 vs = [self.ev(e.key), self.ev(e.value)]
                 return Val(self.join_vals(vs, container=True), Ty([CONT]))
             v = self.ev(e.elt)
-            return Val(self.join_vals([v], container=True), Ty([CONT], v.ty))
+            return Val(self.join_vals([v], container=True), Ty([CONT], v.ty), None, "", isinstance(e, ast.GeneratorExp))
         if isinstance(e, ast.JoinedStr):
             for x in e.values:
                 if isinstance(x, ast.FormattedValue):
@@ -1075,8 +1123,16 @@ class Fn:
         if isinstance(e, ast.Slice):
             self.ev_slice(e)
             return Val(FRESH, TDATA)
-        if isinstance(e, (ast.Yield, ast.YieldFrom, ast.Await)):
-            self.issue("undecided", e, "generator / coroutine body")
+        if isinstance(e, ast.Yield):
+            if self.parent is not None and not isinstance(self.node, ast.FunctionDef):
+                self.issue("undecided", e, "yield inside a lambda")
+            self.yields.append(self.ev(e.value) if e.value is not None else Val(FRESH, TDATA))
+            return Val(NONFRESH, None, None, "value sent into the generator")
+        if isinstance(e, ast.YieldFrom):
+            self.yields.append(self.elem_of(self.ev(e.value)))
+            return Val(NONFRESH, None)
+        if isinstance(e, ast.Await):
+            self.issue("undecided", e, "coroutine body")
             return Val(NONFRESH, None)
         self.issue("undecided", e, "expression %s is outside the accepted grammar" % type(e).__name__)
         return Val(NONFRESH, None)
@@ -1111,7 +1167,7 @@ class Fn:
             if ent[0] in ("mod", "ext", "class", "global"):
                 m = self.pkg.member(ent, attr)
                 if m[0] == "func":
-                    self.call_edge(("func", m[1], m[2]))
+                    self.call_edge(("func", m[1], m[2]), value_use=True)
                 if m[0] == "unknown":
                     self.issue("undecided", node, "%s cannot be resolved" % m[1])
                     return Val(NONFRESH, None)
@@ -1164,7 +1220,7 @@ class Fn:
             fn = self.pkg.classes[fm[1]].methods[attr]
             if self.pkg.producer_kind(self.pkg.classes[fm[1]], fn):
                 return Val(NONFRESH, None)
-            self.call_edge(("meth", fm[1], attr, cname, None))
+            self.call_edge(("meth", fm[1], attr, cname, None), value_use=True)
             return Val(NONFRESH, None, ("bound", fm[1], attr, cname, "viaclass"))
         ann, val, _ = self.pkg.classes[fm[1]].attrs[attr]
         self.out.leaves.add("classattr:%s.%s" % (fm[1], attr))
@@ -1187,7 +1243,7 @@ class Fn:
         fm = self.pkg.find_member(c, attr)
         fld = self.an.has_field(c, attr)
         if fm and fm[0] == "method":
-            self.call_edge(("meth", fm[1], attr, c, None))
+            self.call_edge(("meth", fm[1], attr, c, None), value_use=True)
             return Val(NONFRESH, None, ("bound", fm[1], attr, c, "inst"))
         if fld:
             ty, deps = self.an.field_info(c, attr)
@@ -1243,13 +1299,25 @@ class Fn:
             kws.append((k.arg, self.ev(k.value), k.value))
         if isinstance(f, ast.Attribute):
             recv = self.ev(f.value)
-            callee = self.attr_read(recv, f.attr, f)
+            self.as_callee = True
+            try:
+                callee = self.attr_read(recv, f.attr, f)
+            finally:
+                self.as_callee = False
         else:
             recv = None
-            callee = self.ev(f)
+            self.as_callee = isinstance(f, ast.Name)
+            try:
+                callee = self.ev(f)
+            finally:
+                self.as_callee = False
         ent = callee.ent
         if ent is not None and ent[0] == "classmember":
-            ent = self.class_member(ent[1], ent[2], f).ent
+            self.as_callee = True
+            try:
+                ent = self.class_member(ent[1], ent[2], f).ent
+            finally:
+                self.as_callee = False
         if ent is not None:
             if ent[0] == "func":
                 return self.apply(("func", ent[1], ent[2]), args, kws, 0, e)
@@ -1285,7 +1353,7 @@ class Fn:
             if ent[0] == "localfn":
                 summ, params = ent[1], ent[2]
                 self.check_args(summ, params, args, kws, 0, e, "local function")
-                return Val(summ.ret_kind, None if summ.ret_ty is BOT else summ.ret_ty)
+                return Val(summ.ret_kind, None if summ.ret_ty is BOT else summ.ret_ty, None, "", summ.ret_oneshot)
             if ent[0] == "mod":
                 self.issue("undecided", e, "call of a module object")
                 return Val(NONFRESH, None)
@@ -1329,7 +1397,7 @@ class Fn:
         if ctor:
             return None
         k, t = s.ret_kind, s.ret_ty
-        return Val(k, None if t is BOT else t, None, "result of %s" % key_name(key))
+        return Val(k, None if t is BOT else t, None, "result of %s" % key_name(key), s.ret_oneshot)
 
     def construct(self, cname, args, kws, e):
         fm = self.pkg.find_member(cname, "__init__")
@@ -1366,9 +1434,29 @@ class Fn:
                 return Val(SHALLOW, vals[0].ty if vals else None)
             if dotted == "copy.deepcopy":
                 return Val(FRESH, vals[0].ty if vals else None)
-            return Val(NONFRESH, None, None, "result of %s" % dotted)
+            if dotted in ("operator.attrgetter", "operator.methodcaller"):
+                return self.by_name_callable(dotted, args, e)
+            return Val(NONFRESH, None, None, "result of %s" % dotted, dotted.startswith("itertools."))
         self.issue("undecided", e, "call of external function %s, which is not in the table of non-mutating callees" % dotted)
         return Val(NONFRESH, None)
+
+    def by_name_callable(self, dotted, args, e):
+        """operator.attrgetter("a.b") / methodcaller("m"): an attribute read / method call on an unknown object"""
+        for v, x, star in args[:1] if dotted.endswith("methodcaller") else args:
+            if star or not (isinstance(x, ast.Constant) and isinstance(x.value, str)):
+                self.issue("undecided", e, "%s with a computed name" % dotted)
+                continue
+            for attr in x.value.split("."):
+                if dotted.endswith("attrgetter"):
+                    self.attr_read(Val(NONFRESH, None), attr, e)
+                elif attr in self.an.method_names:
+                    self.method_on_value(Val(NONFRESH, None), ast.Attribute(value=ast.Name(id="_", ctx=ast.Load()), attr=attr,
+                                                                        ctx=ast.Load(), lineno=e.lineno), [], [], e)
+                elif attr in MUT_METHODS:
+                    self.issue("undecided", e, "methodcaller of the mutating method .%s()" % attr)
+                elif attr in self.an.producer_names:
+                    self.attr_read(Val(NONFRESH, None), attr, e)
+        return Val(NONFRESH, None, None, "callable made by %s" % dotted)
 
     def builtin_call(self, name, args, kws, e):
         vals = [v for v, _, _ in args] + [v for _, v, _ in kws]
@@ -1378,7 +1466,8 @@ class Fn:
             t = None
             if vals and vals[0].ty is not None and vals[0].ty.elem is not None and name in ("list", "tuple", "set", "sorted", "reversed", "iter"):
                 t = Ty([CONT], vals[0].ty.elem)
-            return Val(FRESH if all(v.kind == FRESH for v in vals) else SHALLOW, t or Ty([CONT]))
+            return Val(FRESH if all(v.kind == FRESH for v in vals) else SHALLOW, t or Ty([CONT]), None, "",
+                       name in ("enumerate", "zip", "map", "filter", "reversed", "iter"))
         if name in ELEMENT_BUILTINS:
             v0 = vals[0] if vals else Val(FRESH, TDATA)
             ev_ = self.elem_of(v0)
@@ -1588,14 +1677,26 @@ def analyse(repo):
                              unresolved_deps=missing))
     # by-name edges (reads on objects whose class could not be inferred) are kept when the graph stays acyclic with
     # them (the certificate then covers them); otherwise they are dropped and reported as external leaves
-    full = {u: sorted(set(v) | {x for _, x in soft_edges[u]}) for u, v in edges.items()}
-    soft_cycle = find_cycle(full)
     n_soft = sum(len(v) for v in soft_edges.values())
+    soft_left = {u: {x for _, x in v} - set(edges[u]) for u, v in soft_edges.items()}
     dropped = []
-    if soft_cycle is None:
-        edges = full
-    else:
-        dropped = sorted({"%s (read in %s.%s)" % (site, nodes[u][0], nodes[u][1]) for u, v in soft_edges.items() for site, _ in v})
+    while True:
+        full = {u: sorted(set(v) | soft_left[u]) for u, v in edges.items()}
+        cy = find_cycle(full)
+        if cy is None:
+            break
+        removed = False
+        for a, b in zip(cy, cy[1:]):
+            if b in soft_left[a]:            # only the by-name edges that lie on the cycle are given up
+                soft_left[a].discard(b)
+                removed = True
+                for site, x in soft_edges[a]:
+                    if x == b:
+                        dropped.append("%s (read in %s.%s, edge to %s.%s)" % ((site,) + nodes[a] + nodes[b]))
+        if not removed:
+            break                            # a cycle of resolved reads: no rank exists
+    edges = {u: sorted(set(v) | soft_left[u]) for u, v in edges.items()}
+    dropped = sorted(set(dropped))
     for p in per_node:
         p["deps"] = edges[p["id"]]
     # package-level fail-closed checks: nothing decorated like a producer may be outside the graph
@@ -1650,7 +1751,7 @@ def analyse(repo):
         decorators=inventory(pkg), defined_producers_per_module=mods,
         producers=per_node, n_nodes=len(nodes), n_edges=sum(len(v) for v in edges.values()),
         cycle=[("%s.%s" % nodes[i]) for i in cyc] if cyc else None, rank=rank,
-        by_name_edges=n_soft, by_name_edges_kept=(n_soft if not dropped else 0), by_name_reads_dropped=dropped,
+        by_name_edges=n_soft, by_name_edges_kept=sum(len(v) for v in soft_left.values()), by_name_reads_dropped=dropped,
         issues=sorted(all_issues.values(), key=lambda i: (i["file"], i["line"], i["msg"])),
         allow_listed=allowed_hits, allow_list_unused=[list(k) for k in ALLOW if ALLOW[k] not in allowed_hits.values()],
         externals=ext, fields_read=sorted(k for k in leaves_all if k.startswith(("field:", "classattr:"))),
